@@ -92,6 +92,53 @@ class Chars(Harness):
         return Outcome("module", hasattr(m, "items"), {"module": snap(m)})
 
 
+VALUE_SHAPES = ("dd:dd:ddsdd", "dd:dd:ddsdd:dd", "dd:dd:dd.dZsd", "dddd-dd-ddTdd:dd:ddsd", "dddd-dddTdd:dd", "dd:ddsdddd",
+                "d:d:d:d", "dd:dd:dd.dddddddd", "dddd-dd-ddT", "d#d#", "sd#dd#", "dd#sd#", "d#sd", "dd#dd#d", "s#d#",
+                "dEsd", "sd.dEsdd", "d.d.d", "sd_d", "dEd.d", "sdd:dd", "dddd-dd-dd-dd", "dddd-dddd")
+
+
+class Shaped(Harness):
+    """value texts shaped like dates, times with zones, based integers and reals, every digit (d) and sign (s)
+    symbolic: as a value, as a sequence element and as a parameter name the loader returns a module or raises
+    LexerError/ParseError"""
+    prop = "C06"
+    functions = FUNCS
+    must_reach = ("module", "LexerError", "ParseError")
+    timeout = 170
+    alphabet = "ascii"
+
+    @property
+    def bounds(self):
+        return "loader %s, text 'a = <v>', 'b = (1, <v>)' and '<v> = 1' with v of shape %s (d = every digit, s = + or -)" % (
+            self.dialect, self.shape)
+
+    def inputs(self, ctx):
+        cs = []
+        for i, ch in enumerate(self.shape):
+            if ch == "d":
+                cs.append(ctx.fresh_char("d%d" % i, ((48, 57),)))
+            elif ch == "s":
+                cs.append(ctx.fresh_char("s%d" % i, ((43, 43), (45, 45))))
+            else:
+                cs.append(ch)
+        return {"v": SymStr(cs)}
+
+    def prop_fn(self, L, inp):
+        v = inp["v"]
+        tags = []
+        for text in ("a = " + v + "\nEND\n", "b = (1, " + v + ")\n", v + " = 1\n"):
+            try:
+                m = load(L, self.dialect, text=text)
+                tags.append("module")
+                if not hasattr(m, "items"):
+                    return Outcome("module", False, {"text": text})
+            except L.exceptions.LexerError:
+                tags.append("LexerError")
+            except L.exceptions.ParseError:
+                tags.append("ParseError")
+        return Outcome(tags[0], True, {"outcomes": tags})
+
+
 TOKEN_PREFIXES = {"": [], "inset": ["a", "=", "{"], "inseq": ["a", "=", "(", "1", ","], "ingroup": ["GROUP", "=", "a"],
                   "setinset": ["a", "=", "{", "{"], "afterunits": ["a", "=", "(", "1", "<m>"],
                   "seqinset": ["a", "=", "{", "("]}
@@ -145,6 +192,8 @@ def obligations(tier):
                 for i, part in enumerate(FIRST):
                     if ranges_inter(ALPHABETS[ALPHA[d]], part):
                         obs.append(Chars(dialect=d, n=n, first=i, shard_bits=2))
+        for sh in VALUE_SHAPES:
+            obs.append(Shaped(dialect=d, shape=sh))
         if quick:
             obs.append(Tokens(dialect=d, k=5, shard_bits=5))
         else:
